@@ -295,17 +295,18 @@ def scenarios(tier, seed):
         for cnt in itertools.product((1, 2, 4), repeat=3):       # every axis gets to be the strictly shortest one
             S.append(OctreeCentroids(counts=cnt, origin=(sum(cnt) % 2 == 0)))
     else:
-        for shp in ((2, 3, 2), (3, 3, 3), (1, 4, 2), (4, 1, 1)):
+        for shp in ((2, 3, 2), (3, 3, 3), (1, 4, 2), (4, 1, 1), (4, 3, 2), (2, 2, 5), (5, 2, 2)):
             S.append(BlockCentroids(shape=shp))
         S.append(BlockCentroids(shape=(2, 1, 2), origin=False))
-        for shp in ((3, 2), (4, 4), (1, 5), (5, 1)):
+        for shp in ((3, 2), (4, 4), (1, 5), (5, 1), (6, 3), (2, 7)):
             S.append(GridCentroids(shape=shp))
         for cnt in itertools.product((1, 2, 4, 8), repeat=3):
             if max(cnt) / min(cnt) <= 4 or cnt in ((8, 1, 1), (1, 8, 2)):
                 S.append(OctreeCentroids(counts=cnt, origin=(sum(cnt) % 2 == 0)))
         S += [OctreeCentroids(counts=(4, 4, 4), ncell=4), OctreeCentroids(counts=(8, 4, 2), ncell=2, origin=False)]
         S += [GridVertical(shape=(3, 2)), PartsAfterRemoval(n=6), PartsAfterRemoval(n=3)]
-        S += [CurveParts(n=5, labels=3), CurveParts(n=4, labels=4), CurveParts(n=6, labels=2), CurveParts(n=2, labels=2)]
+        S += [CurveParts(n=5, labels=3), CurveParts(n=4, labels=4), CurveParts(n=6, labels=2), CurveParts(n=2, labels=2),
+              CurveParts(n=6, labels=3), CurveParts(n=7, labels=2)]
     return S
 
 
